@@ -93,7 +93,7 @@ def random_menu(g, kind, nsets, size, allow_err=True, allow_switch=True):
 
 def random_general(seed, n, base_id, k=3, sigma=(A, B, C, 120), nsets=(1, 2, 2, 3), nrules=(0, 1, 2, 2, 3, 4),
                    p_ctx=0.0, p_eoi=0.0, p_sugar=0.25, menu_sizes=(1, 1, 2, 2, 3), p_fal=0.3,
-                   depth=2, named=True, allow_switch=True, letters=(A, B, C), p_var=0.0):
+                   depth=2, named=True, allow_switch=True, letters=(A, B, C), p_var=0.0, p_join=0.35):
     """Random definitions with several rule sets, decision menus, optional contexts / `$` rules."""
     g = Gen(seed, letters=letters)
     out = []
@@ -108,15 +108,28 @@ def random_general(seed, n, base_id, k=3, sigma=(A, B, C, 120), nsets=(1, 2, 2, 
             nr = g.rnd.choice(nrules)
             if si == 0 and nr == 0 and g.rnd.random() < 0.8:
                 nr = 2
-            for _ in range(nr):
+            joins = []
+            if g.rnd.random() < p_join and nr >= 2:
+                # a join: a state reachable both through an accepting state and around it
+                x, y = g.rnd.sample(list(letters), 2) if len(letters) >= 2 else (letters[0], letters[0])
+                z = g.rnd.choice(list(letters))
+                w = g.rnd.choice(list(letters))
+                short = chr_(x)
+                tail = g.rnd.choice([str_([z, w]), cat(chr_(z), plus(chr_(w))), cat(chr_(z), cat(opt(chr_(x)), chr_(w)))])
+                long_ = cat(alt(chr_(x), chr_(y)), tail)
+                joins = [short, long_]
+                g.rnd.shuffle(joins)
+            for ri in range(nr):
                 re = g.rule_regex(g.rnd.choice([1, 1, 2, depth]))
+                if ri < len(joins):
+                    re = joins[ri]
                 if p_var and g.rnd.random() < p_var:
                     vn = "v%d" % len(env)
                     scope = g.rnd.choice([-1, si])
                     env.append((vn, re, scope))
                     re = g.rnd.choice([var(vn), cat(var(vn), g.atom()), plus(var(vn))])
-                if g.rnd.random() < p_eoi:
-                    re = g.with_eoi(re) if g.rnd.random() < 0.8 else eoi()
+                if g.rnd.random() < p_eoi and ri >= len(joins):
+                    re = g.with_eoi(re) if g.rnd.random() < 0.7 else eoi()
                 ctx = g.ctx_regex(g.rnd.choice([0, 1, 1, 2])) if g.rnd.random() < p_ctx else None
                 r = g.rnd.random()
                 if r < p_sugar / 2:
